@@ -61,7 +61,7 @@ def install(spec: Spec):
         ex.suspend('asyncio.sleep')
         return models.mk_none()
 
-    spec.fn('helpers._execute_with_retries', file=F, qual='_execute_with_retries', is_async=True,
+    spec.fn('helpers._execute_with_retries', file=F, qual='_execute_with_retries', is_async=True, interference='helpers',
             params={'func': 'any', 'args': 'any', 'kwargs': 'any', 'retries': 'int', 'timeout': 'real', 'wait': 'real',
                     'backoff_factor': 'real', 'retry_on': 'any', 'start_time': 'real', 'sem_start': 'real', 'semaphore_limit': 'opt[int]'},
             returns='any',
